@@ -58,6 +58,10 @@ def generate(seed, tier):
             ops.append({'op': 'forge', 'kind': kind, 'tip': -1 if rng.random() < 0.6 else rng.randrange(1000),
                         'a': rng.randrange(1000), 'b': rng.randrange(1000), 'dt': rng.choice([1, 60, 600]),
                         'clock': 0, 'peer': peer, 'overlap': rng.random() < 0.15})
+        elif x < 0.91:
+            m = LC.gen_mine(rng, latest_bias=0.7, max_txs=2)
+            m.update({'op': 'corrupt_then_valid', 'peer': peer, 'peer2': rng.randrange(4), 'clock': 0, 'a': rng.randrange(100000)})
+            ops.append(m)
         elif x < 0.96:
             ops.append({'op': 'submit_tx', 'spec': LC.gen_tx_spec(rng), 'peer': peer})
         else:
@@ -320,6 +324,44 @@ def execute(script):
                     send_block(child, op.get('peer', 0), 'orphan-child-again', 'honest')
                     if not settle_and_check():
                         break
+            elif kind == 'corrupt_then_valid':
+                # a copy of a valid block with its header intact and its body damaged (same id) arrives first; the intact
+                # block from another peer must then be accepted, stored and relayed as usual
+                if not settle_and_check():
+                    break
+                rb = sim.parent_of(op.get('tip', -1))
+                txs, _, _ = sim.build_txs(rb, op.get('txs', []) or [{'ins': [op.get('a', 0)], 'outs': [[1, 1]], 'fee_ppm': 0}])
+                ts = rb.ts + max(1, op.get('dt', 60))
+                if ts > w.node_clock() + 20:
+                    ts = rb.ts + 1
+                    if ts > w.node_clock() + 20:
+                        continue
+                blk = W.roundtrip(W.mine_honest(W.view_at(sim.cs, rb.id), txs, W.key(op.get('miner', 0) % 12), ts))
+                if rules.block_id(blk) in accepted:
+                    continue
+                raw = bytearray(blk.serialize())
+                hl = len(blk.header.serialize())
+                pos = hl + 1 + op.get('a', 0) % (len(raw) - hl - 1)
+                raw[pos] ^= 1 << (op.get('a', 0) % 8)
+                c = w.conn(op.get('peer', 0))
+                if c is None:
+                    continue
+                import struct as _st
+                from seams.bots import MAGIC as _MG
+                hd = M.MessageHeader(w.node_clock(), 77, 0, 5).serialize()
+                data = hd + b'\x00\x04\x00' + M.DATA_BLOCK + bytes(raw)
+                c.send_raw(_MG + _st.pack('>I', len(data)) + data)
+                w.settle(2500)
+                res.bump('probe:damaged_copy_delivered_first')
+                if node.loop_error:
+                    break
+                if rules.block_id(blk) in w.node_ids():
+                    res.violate(PROP, 'C09/invalid-block-entered-state', 'a block with a damaged body (intact header) entered chain state')
+                    break
+                send_block(blk, op.get('peer2', 1), 'intact-after-damaged-copy', 'honest')
+                batch[-1]['pool_before'] = w.pool_ids()
+                if not settle_and_check():
+                    break
             elif kind == 'dup':
                 if not delivered_valid:
                     continue
